@@ -371,7 +371,7 @@ func engineC38(c *vctx) error {
 	}
 
 	// ---- random scripts ----
-	rounds := c.n(500, 9000)
+	rounds := c.n(320, 4000)
 	for r := 0; r < rounds; r++ {
 		rng := c.rng.fork()
 		t := types[[]int{0, 0, 1, 1, 2, 2, 3, 3, 4, 5}[rng.intn(10)]]
